@@ -98,7 +98,7 @@ func runC17(c *core.Case) {
 	if r.P(0.04) { // max < min is an error in both directions
 		id := genID(r, 1, 31, 0, 35)
 		zf, zb, zo := genZoom(r), genZoom(r), genZoom(r) // every output / bit zoom incl. 0 and 35
-		if r.P(0.4) { // inverted by the smallest possible amount: one ulp, or 1e-12 .. 1e-9 m
+		if r.P(0.4) {                                    // inverted by the smallest possible amount: one ulp, or 1e-12 .. 1e-9 m
 			if r.Bool() {
 				max = math.Nextafter(min, math.Inf(1))
 			} else {
